@@ -228,6 +228,22 @@ let run_case (line:str) : str =
       Printf.sprintf "%d:%s" (Buffer.length buf) (Digest.to_hex (Digest.string (Buffer.contents buf))) in
     dg (fs_get ap s) ^ " " ^ dg (fs_get tp s)
   | "kill" -> "safe"
+  | "fill" ->
+    let minz = tn ts in let _z = tn ts in let nb = ti ts in
+    let boundary = L.init nb (fun _ -> tn ts) in
+    let np = ti ts in
+    let probes = L.init np (fun _ -> let id = tn ts in let v = ti ts in (id, v = 1)) in
+    let inside i = match L.assoc_opt i probes with Some b -> b | None -> false in
+    let rs = interior_ranges inside boundary in
+    let rel = region_relevant inside boundary minz in
+    let buf = Buffer.create 1024 in
+    L.iter (fun i -> Buffer.add_string buf (string_of_n i); Buffer.add_char buf ' ') rel;
+    S.concat " " ([string_of_int (L.length rs)] @ L.concat_map (fun (a, b) -> [string_of_n a; string_of_n b]) rs
+                  @ ["rel"; string_of_int (L.length rel); Digest.to_hex (Digest.string (Buffer.contents buf))])
+  | "regionhdr" ->
+    let k = ti ts in let n = ti ts in
+    let cs = L.init n (fun _ -> let lo = z_of_string (tok ts) in let la = z_of_string (tok ts) in (lo, la)) in
+    S.concat " " (L.map string_of_z (region_header (nat_of_int k) (L.map fst cs) (L.map snd cs)))
   | "convert" ->
     let dedup = ti ts = 1 in
     let nm = ti ts in
